@@ -159,7 +159,8 @@ Qed.
 (* ---------- Read with a remembered error ---------- *)
 Lemma read_loop_err_val fuel c m s e : rerror s = Some e ->
   read_loop fuel c m s =
-  ([], Some (if is_io_eof e && match cur s with Some _ => true | None => false end then unexpected_eof else e), s).
+  ([], Some (if is_io_eof e && match cur s with Some _ => true | None => false end
+                && ((0 <? rem s) || negb (rfin s)) then unexpected_eof else e), s).
 Proof. intros H. destruct fuel; cbn [read_loop]; rewrite H; reflexivity. Qed.
 
 (* ---------- Theorem B ---------- *)
